@@ -160,16 +160,20 @@ namespace riddle
       return tk;
     }
 
-    token *mk_integer_token(const std::string &str) noexcept
+    token *mk_integer_token(const std::string &str)
     {
+      if (str.size() > 18) // the literal might not fit into a 64-bit integer..
+        error("numeric literal out of range..");
       token *tk = new int_token(start_line, start_pos, end_line, end_pos, static_cast<smt::I>(std::stol(str)));
       start_line = end_line;
       start_pos = end_pos;
       return tk;
     }
 
-    token *mk_rational_token(const std::string &intgr, const std::string &dec) noexcept
+    token *mk_rational_token(const std::string &intgr, const std::string &dec)
     {
+      if (intgr.size() + dec.size() > 18) // numerator and denominator might not fit into 64-bit integers..
+        error("numeric literal out of range..");
       token *tk = new real_token(start_line, start_pos, end_line, end_pos, smt::rational(static_cast<smt::I>(std::stol(intgr + dec)), static_cast<smt::I>(std::pow(10, dec.size()))));
       start_line = end_line;
       start_pos = end_pos;
